@@ -35,9 +35,9 @@ BUDGET = {'quick': 100, 'thorough': 1500}
 def parts(tier):
     T = (tier == 'thorough')      # thorough: larger layouts, longer histories
     return [
-        Part('continuous', schedgen.histories(max_ops=40 if not T else 80, big=T), quick=170, thorough=1500),
-        Part('lfs_mem_heavy', schedgen.histories(max_ops=25 if not T else 50, big=T, heavy=True, app=False), quick=60, thorough=400),
-        Part('jsrun', schedgen.histories(max_ops=30 if not T else 60, big=T, cls='jsrun', app=False), quick=40, thorough=300),
+        Part('continuous', schedgen.histories(max_ops=40 if not T else 80, big=T), quick=170, thorough=1000),
+        Part('lfs_mem_heavy', schedgen.histories(max_ops=25 if not T else 50, big=T, heavy=True, app=False), quick=60, thorough=300),
+        Part('jsrun', schedgen.histories(max_ops=30 if not T else 60, big=T, cls='jsrun', app=False), quick=40, thorough=200),
         Part('nodelist', nodelistsim.nl_cases(), quick=250, thorough=2500),
         Part('nodelist_numa', nodelistsim.numa_cases(), quick=80, thorough=600),
     ]
